@@ -228,8 +228,56 @@ fn loop_shape_cases(run: &Run, fx: &Fx) {
     });
 }
 
+/// Batches of n transactions that all carry a covenant of their own and pay their minimum plus a small tip, applied as one
+/// batch on rayon pools of 1 .. 16 workers (how a batch is spread over workers depends on its length and on the pool), and
+/// the same batch with a last member paying one unit too little.  The engine's oracles compare fee pool and tips with the
+/// reference after the batch.
+fn large_fee_batches(run: &Run, thorough: bool) {
+    use crate::stf::*;
+    let mult: u128 = 65536 * 3;
+    let (_w, rootn) = root(NetID::Custom02, mult, false);
+    let eng = Engine::new(run);
+    let open = match eng.step(&rootn, &Action::Open) {
+        StepOut::Next(x) => x,
+        _ => return,
+    };
+    let sizes: Vec<usize> = if thorough { vec![2, 3, 5, 7, 9, 17, 31, 33, 47, 63, 65, 100] } else { vec![3, 5, 9, 17, 33, 47] };
+    let pools: Vec<rayon::ThreadPool> = [1usize, 2, 3, 4, 5, 16].iter().map(|n| rayon::ThreadPoolBuilder::new().num_threads(*n).build().unwrap()).collect();
+    let mut batches = 0u64;
+    for n in sizes {
+        let mk = |i: usize, short: u128| {
+            let cov = Covenant::from_ops(&[OpCode::Loop((i % 7 + 1) as u16, 1), OpCode::PushI((i as u64).into())]);
+            let mut t = mktx(melstructs::TxKind::Faucet, vec![], vec![out_t(10 + i as u128, Denom::Mel)], 0, vec![cov.to_bytes()], vec![0x5f, (i >> 8) as u8, i as u8]);
+            for _ in 0..4 {
+                t.fee = melstructs::CoinValue(crate::refstf::ref_min_fee(&t, mult) + (i % 3) as u128 - short);
+            }
+            t
+        };
+        let honest: Vec<Transaction> = (0..n).map(|i| mk(i, 0)).collect();
+        let mut short = honest.clone();
+        // an index with i % 3 == 0 pays exactly the minimum; one unit less is too little
+        let last = (n - 1) - (n - 1) % 3;
+        short[last] = mk(last, 1);
+        for pool in &pools {
+            for (label, txs, ok) in [("pays", &honest, true), ("one member pays one unit too little", &short, false)] {
+                let a = Action::Batch { label: format!("{} faucets with covenants of their own, {} ({} workers)", n, label, pool.current_num_threads()), txs: txs.clone(), expect_ok: ok };
+                batches += 1;
+                match pool.install(|| eng.step(&open, &a)) {
+                    StepOut::Next(_) => run.outcome("large-fee-batch:accepted"),
+                    StepOut::Rejected => run.outcome("large-fee-batch:rejected"),
+                    StepOut::Pruned => run.outcome("large-fee-batch:engine-reported"),
+                }
+            }
+        }
+    }
+    run.set("large_fee_batches", json!({"fee_multiplier": mult.to_string(), "pool_sizes": [1, 2, 3, 4, 5, 16], "batches": batches}));
+}
+
 pub fn run(run: &Run) {
     let thorough = run.thorough();
+    // two callers on chains with different fee multipliers, with melstf's own source under loom (every interleaving)
+    crate::loomrun::stf_interleavings(run, "C05", &["two-callers"]);
+    large_fee_batches(run, thorough);
     let mults: Vec<u128> = vec![0, 1, 2, 65535, 65536, 65537, 1_000_000, 1 << 40, 1 << 64, 1 << 90];
     let deltas: Vec<i64> = vec![-1000, -2, -1, 0, 1, 2, 1000];
     let covs = extra_covenants();
